@@ -112,6 +112,15 @@ class C01(Prop):
                         r['error'] = [rng.choice([0.3, 0.6])]
             yield {'kind': 'frontend', 'event': ev, 'options': sorted(ev['types']), 'mts': [], 'marginalise': True, 'return_zero': True,
                    'probe': 'none', 'probe_seed': rng.randrange(1 << 30), 'dc': False, 'samples': 60, 'parallel': True}
+        # polarity-probability data alone, every station with a mis-pick probability (the front end has to take the mis-pick
+        # probabilities of the polarity-probability type when there is no manual polarity), with and without location samples
+        for i in range(2 if tier == 'quick' else 10):
+            ev = dg.gen_event(rng, want_pol='pp', want_ar=False, want_loc=(i % 2 == 1))
+            for key, rows in ev['types'].items():
+                for r in rows:
+                    r['ipp'] = rng.choice([0.1, 0.25, 0.4])
+            yield {'kind': 'frontend', 'event': ev, 'options': sorted(ev['types']), 'mts': [], 'marginalise': True, 'return_zero': True,
+                   'probe': 'none', 'probe_seed': rng.randrange(1 << 30), 'dc': (i % 4 == 2), 'samples': 60, 'parallel': False}
 
     # ------------------------------------------------------------------ implementation
     def _task(self, ev, mts, marginalise, return_zero):
@@ -210,6 +219,14 @@ class C01(Prop):
                     both.append(d_)
                 data = both
                 extra_kw = {'location_pdf_file_path': files}
+            elif _loc is not None and _loc is not False and len(_loc) and case['event'].get('loc') is not None:
+                # a single event with its own file of location-uncertainty samples
+                from MTfit.extensions import scatangle as sc
+                fn_ = os.path.join(tmp, 'own.scatangle')
+                e_ = case['event']
+                sc._output_scatangle(fn_, _loc, e_['weights'] if e_['weights'] is not None else [1.0] * len(_loc))
+                data = [data]
+                extra_kw = {'location_pdf_file_path': [fn_]}
             with contextlib.redirect_stdout(sink), contextlib.redirect_stderr(sink):
                 I = inv.Inversion(data, algorithm='iterate', parallel=bool(case.get('parallel')), n=2, max_samples=case['samples'], number_samples=case['samples'] // 2,
                                   phy_mem=1, convert=False, dc=case['dc'], inversion_options=list(case.get('options', sorted(case['event']['types']))), **extra_kw)
